@@ -13,6 +13,9 @@ DOCUMENTED = {DATA, DATA_OTHER, ERROR, STOP, CLOSED, TUNNEL}
 
 
 def unhx(s):
+    """hex field of a dump: '-' = empty, '~' = NULL (returned as None)"""
+    if s == "~":
+        return None
     return b"" if s == "-" else bytes.fromhex(s)
 
 
